@@ -1,0 +1,68 @@
+//go:build verif
+// +build verif
+
+// Contracts for deductive verification (govc, /verif). Comment-only file.
+
+package xmodel
+
+// ======================= C18: snapshot reads =======================
+// Lookups are functions of their arguments during one snapshot read (the stores are not modified by it).
+//@ func XModel.QueryTx
+//@   noverify
+//@   pure
+//@ func XModel.Get
+//@   noverify
+//@   pure
+//@ func queryUnconfirmTx
+//@   noverify
+//@   pure
+//@ func xModSnapshot.getBlockHeight
+//@   noverify
+//@   pure
+
+// The previous version of (bucket, key) as cited by a writer: the reference of its first matching input.
+//@ func xModSnapshot.getPreOutExt
+//@   property C18
+//@   pure
+//@   ensures first_matching_input: result2 == nil ==> (exists j int :: 0 <= j && j < len(inputsExt) && inputsExt[j].Bucket == bucket && bytesEq(inputsExt[j].Key, key) && result0 == inputsExt[j].RefTxid && result1 == inputsExt[j].RefOffset && (forall k int :: 0 <= k && k < j ==> !(inputsExt[k].Bucket == bucket && bytesEq(inputsExt[k].Key, key))))
+//@   ensures error_iff_no_input: result2 != nil ==> (forall k int :: 0 <= k && k < len(inputsExt) ==> !(inputsExt[k].Bucket == bucket && bytesEq(inputsExt[k].Key, key)))
+//@   loop 1 invariant scanned: 0 <= $i && $i <= len(inputsExt) && (forall k int :: 0 <= k && k < $i ==> !(inputsExt[k].Bucket == bucket && bytesEq(inputsExt[k].Key, key)))
+
+//@ func xModSnapshot.genVerDataByTx
+//@   property C18
+//@   ensures version_of_output: tx != nil && 0 <= offset && offset < len(tx.TxOutputsExt) ==> result != nil && result.RefTxid == tx.Txid && result.RefOffset == offset && result.PureData != nil && result.PureData.Key == tx.TxOutputsExt[offset].Key && result.PureData.Value == tx.TxOutputsExt[offset].Value && result.PureData.Bucket == tx.TxOutputsExt[offset].Bucket
+//@   ensures out_of_range_nil: !(tx != nil && 0 <= offset && offset < len(tx.TxOutputsExt)) ==> result == nil
+
+// The snapshot value of a key at height H: walk the key's version chain from the
+// newest version (each writer cites the version it superseded) and take the FIRST
+// version whose writer is confirmed (has a block) in a block of height <= H;
+// pending writers and writers above H are skipped. snapTx / snapOff name that version.
+//@ macro snT(t, txid) = t.xmod.QueryTx(txid)
+//@ macro snVisible(t, tx) = tx.Blockid != nil && t.getBlockHeight(tx.Blockid) <= t.blkHeight
+//@ spec func snapTx(t *xModSnapshot, bucket string, key bytes, txid bytes, off int) *xldgpb.Transaction =
+//@   len(txid) < 1 ? nil : (snVisible(t, snT(t, txid)) ? snT(t, txid) : snapTx(t, bucket, key, t.getPreOutExt(snT(t, txid).TxInputsExt, bucket, key), t.getPreOutExt#1(snT(t, txid).TxInputsExt, bucket, key)))
+//@ spec func snapOff(t *xModSnapshot, bucket string, key bytes, txid bytes, off int) int =
+//@   len(txid) < 1 ? 0 : (snVisible(t, snT(t, txid)) ? off : snapOff(t, bucket, key, t.getPreOutExt(snT(t, txid).TxInputsExt, bucket, key), t.getPreOutExt#1(snT(t, txid).TxInputsExt, bucket, key)))
+
+//@ func xModSnapshot.Get
+//@   property C18
+//@   let newest = t.xmod.Get(bucket, key)
+//@   let vtx = snapTx(t, bucket, key, newest.RefTxid, newest.RefOffset)
+//@   let voff = snapOff(t, bucket, key, newest.RefTxid, newest.RefOffset)
+//@   ensures value_as_of_height: result1 == nil && vtx != nil && 0 <= voff && voff < len(vtx.TxOutputsExt) ==> result0 != nil && result0.RefTxid == vtx.Txid && result0.RefOffset == voff && result0.PureData.Value == vtx.TxOutputsExt[voff].Value
+//@   ensures absent_as_of_height: result1 == nil && !(vtx != nil && 0 <= voff && voff < len(vtx.TxOutputsExt)) ==> result0 != nil && result0.RefTxid == nil && result0.PureData.Value == nil
+//@   loop 1 invariant same_answer: cursor != nil && snapTx(t, bucket, key, cursor.txid, cursor.offset) == vtx && snapOff(t, bucket, key, cursor.txid, cursor.offset) == voff && verValue == nil && t.xmod != nil && newest != nil
+
+// A transaction that is pending on this node is reported as pending (no block),
+// even if a copy of it also sits in the ledger's confirmed table (orphan block).
+//@ func XModel.queryTx
+//@   property C18
+//@   ensures pending_first: queryUnconfirmTx#1(txid, s.unconfirmTable) == nil ==> result2 == nil && !result1 && result0 == queryUnconfirmTx(txid, s.unconfirmTable)
+
+// A snapshot is taken at the height of the named block.
+//@ func XModel.CreateSnapshot
+//@   property C18
+//@   ensures at_block_height: result1 == nil ==> typeis(result0, xModSnapshot) && result0.(xModSnapshot).xmod == s && result0.(xModSnapshot).blkId == blkId && s.ledger.QueryBlockHeader#1(blkId) == nil && result0.(xModSnapshot).blkHeight == s.ledger.QueryBlockHeader(blkId).Height
+//@ func github.com/xuperchain/xupercore/bcs/ledger/xledger/ledger.Ledger.QueryBlockHeader
+//@   noverify
+//@   pure
